@@ -168,6 +168,27 @@ Calls(e) ==
 RECURSIVE VisitSeq(_, _)
 VisitSeq(m, fs) == IF fs = <<>> THEN m ELSE VisitSeq(Visit(m, Head(fs)), Tail(fs))
 
+\* the calls made while e is evaluated UP TO THE POINT WHERE THE EVALUATION FAILS, if it does (operands are evaluated left
+\* to right before their operator: in `(g() % zero) + h()` g has been called when the division fails, h has not)
+RECURSIVE CallsUntilError(_, _)
+RECURSIVE CallsArgsUntilError(_, _, _)
+CallsArgsUntilError(m, es, i) ==
+  IF i > Len(es) THEN [calls |-> <<>>, err |-> FALSE]
+  ELSE LET h == CallsUntilError(m, es[i]) IN
+       IF h.err THEN h
+       ELSE LET r == CallsArgsUntilError(m, es, i + 1) IN [calls |-> h.calls \o r.calls, err |-> r.err]
+CallsUntilError(m, e) ==
+  CASE e.k = "pcall" -> LET r == CallsArgsUntilError(m, e.args, 1) IN
+                        IF r.err THEN r
+                        ELSE [calls |-> r.calls \o <<e.f>> \o Calls(Body(Knot(e.f).body)[1].e), err |-> Eval(m, e).t = "error"]
+    [] e.k = "u" -> LET r == CallsUntilError(m, e.a) IN [calls |-> r.calls, err |-> r.err \/ Eval(m, e).t = "error"]
+    [] e.k = "b" -> LET l == CallsUntilError(m, e.a) IN
+                    IF l.err THEN l
+                    ELSE LET r == CallsUntilError(m, e.b) IN
+                         [calls |-> l.calls \o r.calls, err |-> r.err \/ Eval(m, e).t = "error"]
+    [] OTHER -> [calls |-> <<>>, err |-> Eval(m, e).t = "error"]
+CallsMade(m, e) == CallsUntilError(m, e).calls
+
 \* how a value is printed
 ValChars(v) ==
   CASE v.t = "int" -> IntChars(v.v)
@@ -338,13 +359,14 @@ ExtCall(m, s) ==
 Exec(m, s) ==
   CASE s.k = "s"   -> Advance(Emit(m, O!T(s.v)))
     [] s.k = "p"   -> LET v == Eval(m, s.e)
-                          mw == VisitSeq([m EXCEPT !.warns = m.warns \o Unknown(m, s.e)], Calls(s.e)) IN
+                          mw == VisitSeq([m EXCEPT !.warns = m.warns \o Unknown(m, s.e)], CallsMade(m, s.e)) IN
                       IF v.t = "error" THEN Fail(mw, v.v) ELSE Advance(Emit(mw, O!T(ValChars(v))))
     [] s.k = "g"   -> Advance(Emit(m, O!GLUE))
     [] s.k = "nl"  -> Advance(Emit(m, O!NL))
     [] s.k = "tag" -> Advance(Emit(m, O!TAG(StrOf(m, s.b, 1).text)))
     [] s.k = "set" -> LET v == Eval(m, s.e) IN
-                      IF v.t = "error" THEN Fail(m, v.v) ELSE Advance(Assign(VisitSeq(m, Calls(s.e)), s.x, v))
+                      IF v.t = "error" THEN Fail(VisitSeq(m, CallsMade(m, s.e)), v.v)
+                      ELSE Advance(Assign(VisitSeq(m, Calls(s.e)), s.x, v))
     [] s.k = "call" -> \* f(args) as a statement (mode drop), printed (print), assigned (set / temp, x), or as an operand of
                       \* the expression e that is printed or assigned (printexpr / setexpr / tempexpr): e refers to the
                       \* returned value as the variable "$ret"
@@ -363,9 +385,9 @@ Exec(m, s) ==
                            IF v.t = "error" THEN Fail(m, v.v)
                            ELSE FnReturn(IF s.e.k = "void" THEN m ELSE VisitSeq(m, Calls(s.e)), v)
     [] s.k = "temp" -> LET v == Eval(m, s.e)
-                           mc == VisitSeq(m, Calls(s.e))
+                           mc == VisitSeq(m, CallsMade(m, s.e))
                            a == CurAct(mc) IN
-                       IF v.t = "error" THEN Fail(m, v.v) ELSE Advance(SetAct(mc, [a EXCEPT !.temps = Put(a.temps, s.x, v)]))
+                       IF v.t = "error" THEN Fail(mc, v.v) ELSE Advance(SetAct(mc, [a EXCEPT !.temps = Put(a.temps, s.x, v)]))
     [] s.k = "if"  -> LET hit == {j \in 1..Len(s.br) : s.br[j].c.k = "else" \/ TruthyV(Eval(m, s.br[j].c))}
                           first == IF hit = {} THEN Len(s.br) ELSE CHOOSE j \in hit : \A j2 \in hit : j <= j2
                           \* (the conditions are evaluated one after the other until one holds: so many calls are made)
